@@ -985,3 +985,23 @@ package evaluator
 //@   ensures empty: isArr(value) && len(arr(value)) == 0 ==> err == nil && result == nil
 //@   ensures[C13 C19] first.key: isArr(value) && len(arr(value)) >= 1 && err == nil ==> isEv(e.root, node, arr(value)[0], variables, call1) && (isStr(call1) || numOk(call1))
 //@   ensures[C13] element: isArr(value) && len(arr(value)) >= 1 && err == nil ==> (exists k Int :: 0 <= k && k < len(arr(value)) && result == arr(value)[k])
+
+// sort(): the comparator literals lower a flag when they meet an element of the wrong type; slices.SortFunc calls them
+// with every element when there are two or more (callback clause in ext.gvc), so a successful sort means that all
+// elements are strings, or all are numbers (C13, C02)
+//@ func sortArray$1
+//@   tags C13 C02 C03
+//@   ensures[C13 C02] flag: cell(valid) ==> isStr(a) && isStr(b)
+//@   ensures[C13 C02] mono: !old(cell(valid)) ==> !cell(valid)
+//@ func sortArray$2
+//@   tags C13 C02 C03
+//@   ensures[C13 C02] flag: cell(valid) ==> numOk(a) && numOk(b)
+//@   ensures[C13 C02] mono: !old(cell(valid)) ==> !cell(valid)
+//@ func sortArray
+//@   tags C13 C02 C03 C06
+//@   at SortFunc#1 invariant[C13 C02] strs: cell(valid) ==> (forall k Int :: {cbSeen(k)} cbSeen(k) ==> isStr(cbElem(k)))
+//@   at SortFunc#2 invariant[C13 C02] nums: cell(valid) ==> (forall k Int :: {cbSeen(k)} cbSeen(k) ==> numOk(cbElem(k)))
+//@   ensures[C13 C02] type.array: !isArr(v) ==> result0 == nil && isTypeErr(result1)
+//@   ensures[C13 C02] strings.only: isArr(v) && len(arr(v)) >= 1 && isStr(arr(v)[0]) && result1 == nil ==> (forall k Int :: 0 <= k && k < len(arr(v)) ==> isStr(arr(v)[k]))
+//@   ensures[C13 C02] numbers.only: isArr(v) && len(arr(v)) >= 1 && !isStr(arr(v)[0]) && result1 == nil ==> (forall k Int :: 0 <= k && k < len(arr(v)) ==> numOk(arr(v)[k]))
+//@   ensures[C13 C02 C08] failure: result1 != nil ==> result0 == nil
